@@ -414,3 +414,40 @@ def r04_11_intervals_reach_the_ends_of_time(ctx: Ctx) -> RuleResult:
     else:
         rr.fail(fz.qual, f"the fixed zone's only interval is [{s}, {e}): it must run from Instant._before_min_value() to Instant._after_max_value() to cover the whole timeline", ctx.loc(fz, calls[0]))
     return rr
+
+
+@rule("C04")
+def r04_12_cache_periods_stay_in_range(ctx: Ctx) -> RuleResult:
+    """The zone-interval cache rounds an instant's day number down to a 32-day period and asks the underlying map about the start
+    of that period.  The first period starts before Instant.min_value: every instant built while filling a cache node must be
+    proved inside [Instant._MIN_DAYS, Instant._MAX_DAYS] for every period a valid instant can fall in (abstract evaluation of the
+    node factory over the whole period range), or lookups in the first 22 days of the timeline raise OverflowError."""
+    from ..oblig import interp
+
+    rr = RuleResult("R04.12", "zone-interval cache: every instant constructed while filling a node lies inside the Instant range for every period of the timeline (range prover over the node factory)", min_instances=1)
+    M = ctx.M
+    f = M.func("_CachingZoneIntervalMap.__HashArrayCache._HashCacheNode._create_node")
+    lo, hi = M.fold_class_const("Instant", "_MIN_DAYS"), M.fold_class_const("Instant", "_MAX_DAYS")
+    shift = M.fold(ast.parse("_PERIOD_SHIFT", mode="eval").body, None, f.mod)
+    if not all(isinstance(v, int) for v in (lo, hi, shift)):
+        raise AnalysisError("Instant day range / _PERIOD_SHIFT not foldable")
+    seen: list[tuple[ast.Call, object]] = []
+
+    def on_call(c, callee, bound, st, fn):
+        if callee.name in ("_from_untrusted_duration", "_from_trusted_duration"):
+            seen.append((c, bound.get("duration")))
+
+    I = interp(ctx)
+    I.on_call = on_call
+    pname = f.value_params[0].arg
+    I.analyse(f, params={pname: Iv(lo >> shift, hi >> shift), f.value_params[1].arg: Obj("_IZoneIntervalMap")})
+    if not seen:
+        raise AnalysisError(f"{f.qual}: no Instant construction seen in the abstract run")
+    for c, d in seen:
+        rr.inst()
+        days = next((v for k, v in getattr(d, "fields", {}).items() if k.endswith("__days")), None)
+        if isinstance(days, Iv) and days.lo >= lo and days.hi <= hi:
+            rr.ok({"call": unparse(c)[:70], "days": str(days)})
+        else:
+            rr.fail(f.qual, f"`{unparse(c)[:80]}`: for periods {lo >> shift}..{hi >> shift} the day number is {days}, not inside [{lo}, {hi}]: the first / last period of the timeline raises OverflowError instead of being cached", ctx.loc(f, c))
+    return rr
